@@ -24,6 +24,29 @@ func valueOf(t string, p int, off int64) []byte {
 	return []byte(fmt.Sprintf("%s/%d@%d-%s", t, p, off, strings.Repeat("v", int(off%11))))
 }
 
+// versionProfiles are the API version ranges the brokers advertise to a kafka.Conn: Conn has a separate code path per
+// negotiated version (produce v2 / v3 / v7, fetch v2 / v5 / v10, metadata v1 / v6), each of them has to be raced against
+// the other methods. Program.Variant % 3 selects the profile.
+var versionProfiles = [][3]int16{{7, 10, 6}, {3, 5, 1}, {2, 2, 6}}
+
+// VersionProfiles describes the profiles (for the evidence file).
+func VersionProfiles() []map[string]int {
+	var out []map[string]int
+	for _, v := range versionProfiles {
+		out = append(out, map[string]int{"produce": int(v[0]), "fetch": int(v[1]), "metadata": int(v[2])})
+	}
+	return out
+}
+
+func applyProfile(cl *fakekafka.Cluster, variant int) {
+	v := versionProfiles[variant%len(versionProfiles)]
+	vs := fakekafka.DefaultVersions()
+	vs[fakekafka.Produce] = fakekafka.VersionRange{Min: 0, Max: v[0]}
+	vs[fakekafka.Fetch] = fakekafka.VersionRange{Min: 0, Max: v[1]}
+	vs[fakekafka.Metadata] = fakekafka.VersionRange{Min: 0, Max: v[2]}
+	cl.Versions = vs
+}
+
 // encoded batches are the same for every program: build them once per (topic, partition, codec)
 var (
 	batchMu    sync.Mutex
